@@ -18,30 +18,39 @@ package js
 //@   ensures[S]  result ==> l.r.buf[l.r.pos] != 0
 
 //@ pred isLTat(b, k) := b[k] == '\n' || b[k] == '\r' || (b[k] == 0xE2 && b[k+1] == 0x80 && (b[k+2] == 0xA8 || b[k+2] == 0xA9))
+//@ pred ltLen(b, k) := ite(b[k] == '\n', 1, ite(b[k] == '\r', ite(b[k+1] == '\n', 2, 1), 3))
 //@ func Lexer.consumeLineTerminator
 //@   preserves[S] jlStep(l)
 //@   ensures[S]  !result ==> l.r.pos == old(l.r.pos)
 //@   ensures[S]  result ==> l.r.pos > old(l.r.pos)
 //@   ensures[F,C06] @lt: result <==> isLTat(l.r.buf, old(l.r.pos))
-//@   ensures[F,C06] @lt-len: result ==> l.r.pos <= old(l.r.pos) + 3
+//@   ensures[F,C06] @lt-len: result ==> l.r.pos == old(l.r.pos) + ltLen(l.r.buf, old(l.r.pos))
 
+// the four digit scanners share one behavioural contract, indexed by the function's identity (self()), so that
+// consumeNumericSeparator(f) can be specified for whichever of them it is given
+//@ pred isHexC(c) := ('0' <= c && c <= '9') || ('a' <= c && c <= 'f') || ('A' <= c && c <= 'F')
+//@ pred jsDigitClass(f, c) := ite(f == fn("js.Lexer.consumeDigit"), isDig(c), ite(f == fn("js.Lexer.consumeHexDigit"), isHexC(c), ite(f == fn("js.Lexer.consumeBinaryDigit"), c == '0' || c == '1', f == fn("js.Lexer.consumeOctalDigit") && '0' <= c && c <= '7')))
 //@ func Lexer.consumeDigit
+//@   ensures[F,C06] @class: result <==> jsDigitClass(self(), old(l.r.buf[l.r.pos]))
 //@   preserves[S] jlStep(l)
 //@   ensures[S]  !result ==> l.r.pos == old(l.r.pos)
 //@   ensures[S]  result ==> l.r.pos == old(l.r.pos)+1
 //@   ensures[S]  @own-class: result <==> ('0' <= old(l.r.buf[l.r.pos]) && old(l.r.buf[l.r.pos]) <= '9')
 
 //@ func Lexer.consumeHexDigit
+//@   ensures[F,C06] @class: result <==> jsDigitClass(self(), old(l.r.buf[l.r.pos]))
 //@   preserves[S] jlStep(l)
 //@   ensures[S]  !result ==> l.r.pos == old(l.r.pos)
 //@   ensures[S]  result ==> l.r.pos == old(l.r.pos)+1
 
 //@ func Lexer.consumeBinaryDigit
+//@   ensures[F,C06] @class: result <==> jsDigitClass(self(), old(l.r.buf[l.r.pos]))
 //@   preserves[S] jlStep(l)
 //@   ensures[S]  !result ==> l.r.pos == old(l.r.pos)
 //@   ensures[S]  result ==> l.r.pos == old(l.r.pos)+1
 
 //@ func Lexer.consumeOctalDigit
+//@   ensures[F,C06] @class: result <==> jsDigitClass(self(), old(l.r.buf[l.r.pos]))
 //@   preserves[S] jlStep(l)
 //@   ensures[S]  !result ==> l.r.pos == old(l.r.pos)
 //@   ensures[S]  result ==> l.r.pos == old(l.r.pos)+1
@@ -110,11 +119,33 @@ package js
 
 //@ func Lexer.consumeNumericSeparator
 //@   funcparam f like Lexer.consumeDigit on l
+//@   ensures[F,C06] @separator: (result <==> old(l.r.buf[l.r.pos]) == '_' && jsDigitClass(f, old(l.r.buf[l.r.pos+1]))) && (result ==> l.r.pos == old(l.r.pos) + 2)
 //@   preserves[S] jlStep(l)
 //@   ensures[S]  !result ==> l.r.pos == old(l.r.pos)
 //@   ensures[S]  result ==> l.r.pos > old(l.r.pos)
 
+// digit runs with numeric separators: a '_' belongs to the run only if a digit of the class follows
+//@ orbit decBody(s, p) stop !(isDig(s[p]) || (s[p] == '_' && isDig(s[p+1]))) || p >= len(s)-1 next ite(isDig(s[p]), p+1, p+2)
+//@ orbit hexBody(s, p) stop !(isHexC(s[p]) || (s[p] == '_' && isHexC(s[p+1]))) || p >= len(s)-1 next ite(isHexC(s[p]), p+1, p+2)
+//@ orbit binBody(s, p) stop !(s[p] == '0' || s[p] == '1' || (s[p] == '_' && (s[p+1] == '0' || s[p+1] == '1'))) || p >= len(s)-1 next ite(s[p] == '0' || s[p] == '1', p+1, p+2)
+//@ orbit octBody(s, p) stop !(('0' <= s[p] && s[p] <= '7') || (s[p] == '_' && '0' <= s[p+1] && s[p+1] <= '7')) || p >= len(s)-1 next ite('0' <= s[p] && s[p] <= '7', p+1, p+2)
+// decimal literal from p: jI1 end of the integer part, jI2 end of the fraction, jExpS first exponent digit
+//@ pred jI1(b, p) := ite(b[p] == '0', p+1, ite(b[p] == '.', p, decBody(b, p)))
+//@ pred jI2(b, p) := ite(b[jI1(b, p)] == '.', ite(isDig(b[jI1(b, p)+1]), decBody(b, jI1(b, p)+1), jI1(b, p)+1), jI1(b, p))
+//@ pred jExpS(b, p) := jI2(b, p) + 1 + ite(b[jI2(b, p)+1] == '+' || b[jI2(b, p)+1] == '-', 1, 0)
+//@ pred jHasExp(b, p) := b[jI2(b, p)] == 'e' || b[jI2(b, p)] == 'E'
 //@ func Lexer.consumeNumericToken
+//@   ensures[F,C06,local] @hex: result == HexadecimalToken ==> old(l.r.buf[l.r.pos]) == '0' && (l.r.buf[old(l.r.pos)+1] == 'x' || l.r.buf[old(l.r.pos)+1] == 'X') && isHexC(l.r.buf[old(l.r.pos)+2]) && l.r.pos == hexBody(l.r.buf, old(l.r.pos)+2) + ite(l.r.buf[hexBody(l.r.buf, old(l.r.pos)+2)] == 'n', 1, 0)
+//@   ensures[F,C06,local] @binary: result == BinaryToken ==> old(l.r.buf[l.r.pos]) == '0' && (l.r.buf[old(l.r.pos)+1] == 'b' || l.r.buf[old(l.r.pos)+1] == 'B') && l.r.pos == binBody(l.r.buf, old(l.r.pos)+2) + ite(l.r.buf[binBody(l.r.buf, old(l.r.pos)+2)] == 'n', 1, 0) && (l.r.buf[old(l.r.pos)+2] == '0' || l.r.buf[old(l.r.pos)+2] == '1')
+//@   ensures[F,C06,local] @octal: result == OctalToken ==> old(l.r.buf[l.r.pos]) == '0' && (l.r.buf[old(l.r.pos)+1] == 'o' || l.r.buf[old(l.r.pos)+1] == 'O') && l.r.pos == octBody(l.r.buf, old(l.r.pos)+2) + ite(l.r.buf[octBody(l.r.buf, old(l.r.pos)+2)] == 'n', 1, 0) && '0' <= l.r.buf[old(l.r.pos)+2] && l.r.buf[old(l.r.pos)+2] <= '7'
+//@   ensures[F,C06,local] @decimal: result == DecimalToken ==> (l.r.buf[jI1(l.r.buf, old(l.r.pos))] == '.' || jHasExp(l.r.buf, old(l.r.pos))) && l.r.pos == ite(jHasExp(l.r.buf, old(l.r.pos)), decBody(l.r.buf, jExpS(l.r.buf, old(l.r.pos))), jI2(l.r.buf, old(l.r.pos)))
+//@   ensures[F,C06,local] @integer: result == IntegerToken && old(l.r.buf[l.r.pos]) != '0' ==> l.r.buf[jI1(l.r.buf, old(l.r.pos))] != '.' && l.r.pos == jI1(l.r.buf, old(l.r.pos)) + ite(l.r.buf[jI1(l.r.buf, old(l.r.pos))] == 'n', 1, 0)
+//@   loop 1 invariant[F] hexBody(l.r.buf, l.r.pos) == hexBody(l.r.buf, old(l.r.pos)+2) && isHexC(l.r.buf[old(l.r.pos)+2]) && l.r.pos > old(l.r.pos)+2
+//@   loop 2 invariant[F] binBody(l.r.buf, l.r.pos) == binBody(l.r.buf, old(l.r.pos)+2) && l.r.pos > old(l.r.pos)+2 && (l.r.buf[old(l.r.pos)+2] == '0' || l.r.buf[old(l.r.pos)+2] == '1')
+//@   loop 3 invariant[F] octBody(l.r.buf, l.r.pos) == octBody(l.r.buf, old(l.r.pos)+2) && l.r.pos > old(l.r.pos)+2 && '0' <= l.r.buf[old(l.r.pos)+2] && l.r.buf[old(l.r.pos)+2] <= '7'
+//@   loop 4 invariant[F] decBody(l.r.buf, l.r.pos) == decBody(l.r.buf, old(l.r.pos)) && first != '0' && first != '.' && first == old(l.r.buf[l.r.pos])
+//@   loop 5 invariant[F] l.r.buf[jI1(l.r.buf, old(l.r.pos))] == '.' && isDig(l.r.buf[jI1(l.r.buf, old(l.r.pos))+1]) && decBody(l.r.buf, l.r.pos) == decBody(l.r.buf, jI1(l.r.buf, old(l.r.pos))+1) && first == old(l.r.buf[l.r.pos])
+//@   loop 6 invariant[F] jHasExp(l.r.buf, old(l.r.pos)) && isDig(l.r.buf[jExpS(l.r.buf, old(l.r.pos))]) && decBody(l.r.buf, l.r.pos) == decBody(l.r.buf, jExpS(l.r.buf, old(l.r.pos))) && first == old(l.r.buf[l.r.pos])
 //@   ensures[F,C15] @err-span: jlErr(l) && (l.err != old(l.err) ==> result == ErrorToken)
 //@   loop * candidate[F] l.err == old(l.err)
 //@   preserves[S] jlStep(l)
@@ -127,7 +158,18 @@ package js
 //@   loop * candidate l.err == old(l.err)
 //@   loop * decreases len(l.r.buf) - l.r.pos
 
+// string body from p for a delimiter: stops at the delimiter, at a raw \n or \r, or at the end of input; a backslash takes a
+// following line terminator (line continuation), delimiter or backslash with it
+//@ pred jsStrNextD(b, p) := ite(b[p] == '\\', p + 1 + ite(isLTat(b, p+1), ltLen(b, p+1), ite(b[p+1] == '"' || b[p+1] == '\\', 1, 0)), p + 1)
+//@ pred jsStrNextS(b, p) := ite(b[p] == '\\', p + 1 + ite(isLTat(b, p+1), ltLen(b, p+1), ite(b[p+1] == '\'' || b[p+1] == '\\', 1, 0)), p + 1)
+//@ orbit jsStrEndD(s, p) stop s[p] == '"' || s[p] == '\n' || s[p] == '\r' || p >= len(s)-1 next jsStrNextD(s, p)
+//@ orbit jsStrEndS(s, p) stop s[p] == '\'' || s[p] == '\n' || s[p] == '\r' || p >= len(s)-1 next jsStrNextS(s, p)
+//@ pred jsStrEnd(b, p, d) := ite(d == '"', jsStrEndD(b, p), jsStrEndS(b, p))
 //@ func Lexer.consumeStringToken
+//@   requires[F] l.r.buf[l.r.pos] == '"' || l.r.buf[l.r.pos] == '\''
+//@   ensures[F,C06] @string-end: result == StringToken ==> l.r.pos == jsStrEnd(l.r.buf, old(l.r.pos)+1, old(l.r.buf[l.r.pos])) + 1 && l.r.buf[l.r.pos-1] == old(l.r.buf[l.r.pos]) && l.r.pos - 1 > old(l.r.pos)
+//@   ensures[F,C06] @string-unterminated: result == ErrorToken ==> l.r.pos == jsStrEnd(l.r.buf, old(l.r.pos)+1, old(l.r.buf[l.r.pos])) && l.r.buf[l.r.pos] != old(l.r.buf[l.r.pos])
+//@   loop 1 invariant[F] delim == old(l.r.buf[l.r.pos]) && jsStrEnd(l.r.buf, l.r.pos, delim) == jsStrEnd(l.r.buf, old(l.r.pos)+1, delim)
 //@   ensures[F,C15] @err-span: jlErr(l) && (l.err != old(l.err) ==> result == ErrorToken)
 //@   loop * candidate[F] l.err == old(l.err)
 //@   preserves[S] jlStep(l)
@@ -153,7 +195,14 @@ package js
 //@   loop * candidate l.r.pos > old(l.r.pos)
 //@   loop * decreases len(l.r.buf) - l.r.pos
 
+// template characters from p: stops at the closing backquote, at "${", or at the end of input; a backslash takes the next
+// byte (unless it is NUL) with it
+//@ orbit tplEnd(s, p) stop s[p] == '`' || (s[p] == '$' && s[p+1] == '{') || p >= len(s)-1 next ite(s[p] == '\\', p + 1 + ite(s[p+1] != 0, 1, 0), p + 1)
 //@ func Lexer.consumeTemplateToken
+//@   ensures[F,C06] @tpl-end: (result == TemplateToken || result == TemplateEndToken) ==> l.r.pos == tplEnd(l.r.buf, old(l.r.pos)+1) + 1 && l.r.buf[l.r.pos-1] == '`'
+//@   ensures[F,C06] @tpl-subst: (result == TemplateStartToken || result == TemplateMiddleToken) ==> l.r.pos == tplEnd(l.r.buf, old(l.r.pos)+1) + 2 && l.r.buf[l.r.pos-2] == '$' && l.r.buf[l.r.pos-1] == '{'
+//@   ensures[F,C06] @tpl-kind: (result == TemplateEndToken || result == TemplateMiddleToken) <==> (result != ErrorToken && old(l.r.buf[l.r.pos]) == '}')
+//@   loop 1 invariant[F] tplEnd(l.r.buf, l.r.pos) == tplEnd(l.r.buf, old(l.r.pos)+1) && (continuation <==> old(l.r.buf[l.r.pos]) == '}')
 //@   ensures[F,C15] @err-span: jlErr(l) && (l.err != old(l.err) ==> result == ErrorToken)
 //@   loop * candidate[F] l.err == old(l.err)
 //@   ensures[F,C06] @tpl-kind: result == ErrorToken || result == TemplateToken || result == TemplateStartToken || result == TemplateMiddleToken || result == TemplateEndToken
